@@ -671,3 +671,15 @@ func (s *Sim) TaskCommit(id string) int {
 	defer s.mu.Unlock()
 	return s.taskCommit[id]
 }
+
+// YieldGM is a macro yield (a tape choice) for goroutines identified only by goroutine id.
+func (s *Sim) YieldGM(point string) {
+	if s == nil || !s.on {
+		return
+	}
+	id := s.taskOfGoroutine()
+	if id == "" {
+		return
+	}
+	s.park(id, point, "")
+}
